@@ -44,6 +44,8 @@ SCEN = {
     # conductances depend on it through the 1/c_m normalisation
     "branch2_cap_only": ("branch2_hh", [("all", "capacitance")], 2),
     "cell_cap_only": ("cell_small", [("b1", "capacitance")], 1),
+    # a channel whose clipped exponentials (save_exp) are in their clipped regime at the voltages used
+    "comp_cat_clip": ("comp_cat", [("all", "CaT_vx"), ("all", "CaT_gCaT"), ("all", "v")], 2),
     "net_tanh": ("net2_tanh", [("syn", "TanhRateSynapse_gS"), ("syn", "TanhRateSynapse_slope"), ("cell0", "radius")], 1),
 }
 
@@ -72,11 +74,14 @@ def build(inst):
         m.select(nodes=[i]).set("v", -70.0 + 3.0 * i)
         m.select(nodes=[i]).set("radius", 1.0 + 0.25 * i)
         m.select(nodes=[i]).set("length", 10.0 + 2.0 * i)
+    if name == "comp_cat_clip":
+        m.set("v", -8.0)          # v + vx > -13.2: save_exp clips in tau_u and u_inf
     m.select(nodes=[n - 1]).record("v", verbose=False)
     # the loss is "any differentiable loss of the recordings": also a recorded membrane current / concentration
     second = "v"
     if name == "comp_hh": second = "i_HH"
     elif name == "comp_pump": second = "CaCon_i"
+    elif name == "comp_cat_clip": second = "CaT_u"
     elif name == "branch2_hh": second = "i_HH"
     m.select(nodes=[0]).record(second, verbose=False)
     make_trainables(m, name)
@@ -87,7 +92,7 @@ def build(inst):
         cur = amp * jnp.ones((1, steps))
         ds = m.select(nodes=[0]).data_stimulate(cur, None)
         ps = m.select(nodes=[n - 1]).data_set("Leak_eLeak" if "Leak_eLeak" in m.nodes.columns else "HH_eLeak", setval, None)
-        scale2 = {"i_HH": 1.0e3, "CaCon_i": 1.0e4}.get(second, 0.5)
+        scale2 = {"i_HH": 1.0e3, "CaCon_i": 1.0e4, "CaT_u": 50.0}.get(second, 0.5)
         out = jx.integrate(m, params=params, param_state=ps, data_stimuli=ds, checkpoint_lengths=ckpt, **kw)
         w = jnp.asarray([[1.0], [scale2]]) * jnp.arange(1, steps + 2)[None, :]
         return jnp.sum(out * w)
@@ -116,10 +121,18 @@ def run_instance(inst):
                                   "replay": dict({"inst": inst, "clause": clause}, **(replay or {}))})
     t0 = time.time()
 
-    def concrete_grad_check(key_idx=None):
-        """replay: jax.grad vs central finite differences in float64 on the real API"""
+    def concrete_grad_check(env=None):
+        """replay: jax.grad vs central finite differences in float64 on the real API; at the witness input `env`
+        (values of the trainable symbols / amp / setval found by the solver or the numeric prescreen) when given,
+        else at the table values"""
         pv = [{k: jnp.asarray(np.asarray(v, dtype=float)) for k, v in d.items()} for d in tp]
         a0, s0 = jnp.asarray(0.3), jnp.asarray(-60.0)
+        if env:
+            try:
+                pv = [{k: jnp.asarray(np.asarray([float(env.get(s_.args[0], float(np.asarray(tp[i][k]).reshape(-1)[j]))) for j, s_ in enumerate(P[i][k].reshape(-1))]).reshape(np.shape(tp[i][k]))) for k in d} for i, d in enumerate(tp)]
+                a0, s0 = jnp.asarray(float(env.get("amp", 0.3))), jnp.asarray(float(env.get("setval", -60.0)))
+            except Exception:
+                pass
         g = jax.grad(lambda p, a, s: loss(p, a, s), argnums=(0, 1, 2))(pv, a0, s0)
         worst = 0.0; where = None
         flat = [(i, k, idx) for i, d in enumerate(pv) for k, v in d.items() for idx in np.ndindex(np.shape(v))]
@@ -187,7 +200,9 @@ def run_instance(inst):
                 continue
             if verdict in ("differs", "sat"):
                 bad_any = True
-                bad, detail = concrete_grad_check()
+                bad, detail = concrete_grad_check(info if isinstance(info, dict) else None)
+                if not bad:
+                    bad, detail = concrete_grad_check()
                 if bad:
                     viol("GRAD", f"jax.grad w.r.t. {label} differs from the derivative of the simulated loss (verdict {verdict}); float64: jax.grad vs central differences {detail}", {"param_kind": label.split("[")[0]})
                     break
@@ -268,7 +283,7 @@ def families():
             ck = [c for c in ck if int(np.prod(c)) >= steps]
             if quick and sc == "comp_pump" and solver == "crank_nicolson":
                 continue
-            if sc in ("branch2_cap_only", "cell_cap_only") and (vs == "jax.sparse" or (quick and solver == "crank_nicolson")):
+            if sc in ("branch2_cap_only", "cell_cap_only", "comp_cat_clip") and (vs == "jax.sparse" or (quick and solver == "crank_nicolson")):
                 continue
             insts.append({"scenario": sc, "solver": solver, "voltage_solver": vs, "ckpts": ck, "definedness": sc in ("comp_hh", "branch2_hh") and solver == "bwd_euler"})
     return insts
